@@ -538,7 +538,18 @@ unsafe fn h_kill(pid: c_int, sig: c_int) -> Option<c_int> {
     Some(r)
 }
 
+/// registered with atexit(): the forked child of a launch must leave with _exit() -- running the process's exit-time
+/// machinery (atexit handlers, destructors, stdio flushing) in a copy of the caller is as much an escape as returning
+extern "C" fn at_exit_hook() {
+    unsafe {
+        if IN_CHILD != 0 {
+            rec(K_ESCAPE, 1, 0, 0, 0, 0, b"atexit");
+        }
+    }
+}
+
 pub fn install() {
+    unsafe { libc::atexit(at_exit_hook) };
     let mut t = crate::hooks::EMPTY;
     t.pipe = Some(h_pipe);
     t.fcntl = Some(h_fcntl);
